@@ -534,6 +534,9 @@ pub mod metrics;
 #[cfg(feature = "checkpointing")]
 pub mod checkpoint;
 
+#[cfg(feature = "verif-hooks")]
+pub mod verif;
+
 // General re-exports
 pub use collection::{CombineFn, Count, PCollection, RFBound};
 pub use combiners::{AverageF64, DistinctCount, Max, Min, Sum, TopK};
